@@ -754,59 +754,108 @@ func (z *E24) Bytes() (r [SizeOfGT]byte) {
 }
 
 // SetBytes interprets e as the bytes of a big-endian GT
-// sets z to that value (in Montgomery form), and returns z.
+// sets z to that value (in Montgomery form).
+// It returns an error if a coefficient is not canonical (>= modulus).
 func (z *E24) SetBytes(e []byte) error {
 	if len(e) != SizeOfGT {
 		return errors.New("invalid buffer size")
 	}
 	offset := 0
-	z.D0.C0.B0.A0.SetBytes(e[offset : offset+sizeOfFp])
+	if err := z.D0.C0.B0.A0.SetBytesCanonical(e[offset : offset+sizeOfFp]); err != nil {
+		return err
+	}
 	offset += sizeOfFp
-	z.D0.C0.B0.A1.SetBytes(e[offset : offset+sizeOfFp])
+	if err := z.D0.C0.B0.A1.SetBytesCanonical(e[offset : offset+sizeOfFp]); err != nil {
+		return err
+	}
 	offset += sizeOfFp
-	z.D0.C0.B1.A0.SetBytes(e[offset : offset+sizeOfFp])
+	if err := z.D0.C0.B1.A0.SetBytesCanonical(e[offset : offset+sizeOfFp]); err != nil {
+		return err
+	}
 	offset += sizeOfFp
-	z.D0.C0.B1.A1.SetBytes(e[offset : offset+sizeOfFp])
+	if err := z.D0.C0.B1.A1.SetBytesCanonical(e[offset : offset+sizeOfFp]); err != nil {
+		return err
+	}
 	offset += sizeOfFp
-	z.D0.C1.B0.A0.SetBytes(e[offset : offset+sizeOfFp])
+	if err := z.D0.C1.B0.A0.SetBytesCanonical(e[offset : offset+sizeOfFp]); err != nil {
+		return err
+	}
 	offset += sizeOfFp
-	z.D0.C1.B0.A1.SetBytes(e[offset : offset+sizeOfFp])
+	if err := z.D0.C1.B0.A1.SetBytesCanonical(e[offset : offset+sizeOfFp]); err != nil {
+		return err
+	}
 	offset += sizeOfFp
-	z.D0.C1.B1.A0.SetBytes(e[offset : offset+sizeOfFp])
+	if err := z.D0.C1.B1.A0.SetBytesCanonical(e[offset : offset+sizeOfFp]); err != nil {
+		return err
+	}
 	offset += sizeOfFp
-	z.D0.C1.B1.A1.SetBytes(e[offset : offset+sizeOfFp])
+	if err := z.D0.C1.B1.A1.SetBytesCanonical(e[offset : offset+sizeOfFp]); err != nil {
+		return err
+	}
 	offset += sizeOfFp
-	z.D0.C2.B0.A0.SetBytes(e[offset : offset+sizeOfFp])
+	if err := z.D0.C2.B0.A0.SetBytesCanonical(e[offset : offset+sizeOfFp]); err != nil {
+		return err
+	}
 	offset += sizeOfFp
-	z.D0.C2.B0.A1.SetBytes(e[offset : offset+sizeOfFp])
+	if err := z.D0.C2.B0.A1.SetBytesCanonical(e[offset : offset+sizeOfFp]); err != nil {
+		return err
+	}
 	offset += sizeOfFp
-	z.D0.C2.B1.A0.SetBytes(e[offset : offset+sizeOfFp])
+	if err := z.D0.C2.B1.A0.SetBytesCanonical(e[offset : offset+sizeOfFp]); err != nil {
+		return err
+	}
 	offset += sizeOfFp
-	z.D0.C2.B1.A1.SetBytes(e[offset : offset+sizeOfFp])
+	if err := z.D0.C2.B1.A1.SetBytesCanonical(e[offset : offset+sizeOfFp]); err != nil {
+		return err
+	}
 	offset += sizeOfFp
-	z.D1.C0.B0.A0.SetBytes(e[offset : offset+sizeOfFp])
+	if err := z.D1.C0.B0.A0.SetBytesCanonical(e[offset : offset+sizeOfFp]); err != nil {
+		return err
+	}
 	offset += sizeOfFp
-	z.D1.C0.B0.A1.SetBytes(e[offset : offset+sizeOfFp])
+	if err := z.D1.C0.B0.A1.SetBytesCanonical(e[offset : offset+sizeOfFp]); err != nil {
+		return err
+	}
 	offset += sizeOfFp
-	z.D1.C0.B1.A0.SetBytes(e[offset : offset+sizeOfFp])
+	if err := z.D1.C0.B1.A0.SetBytesCanonical(e[offset : offset+sizeOfFp]); err != nil {
+		return err
+	}
 	offset += sizeOfFp
-	z.D1.C0.B1.A1.SetBytes(e[offset : offset+sizeOfFp])
+	if err := z.D1.C0.B1.A1.SetBytesCanonical(e[offset : offset+sizeOfFp]); err != nil {
+		return err
+	}
 	offset += sizeOfFp
-	z.D1.C1.B0.A0.SetBytes(e[offset : offset+sizeOfFp])
+	if err := z.D1.C1.B0.A0.SetBytesCanonical(e[offset : offset+sizeOfFp]); err != nil {
+		return err
+	}
 	offset += sizeOfFp
-	z.D1.C1.B0.A1.SetBytes(e[offset : offset+sizeOfFp])
+	if err := z.D1.C1.B0.A1.SetBytesCanonical(e[offset : offset+sizeOfFp]); err != nil {
+		return err
+	}
 	offset += sizeOfFp
-	z.D1.C1.B1.A0.SetBytes(e[offset : offset+sizeOfFp])
+	if err := z.D1.C1.B1.A0.SetBytesCanonical(e[offset : offset+sizeOfFp]); err != nil {
+		return err
+	}
 	offset += sizeOfFp
-	z.D1.C1.B1.A1.SetBytes(e[offset : offset+sizeOfFp])
+	if err := z.D1.C1.B1.A1.SetBytesCanonical(e[offset : offset+sizeOfFp]); err != nil {
+		return err
+	}
 	offset += sizeOfFp
-	z.D1.C2.B0.A0.SetBytes(e[offset : offset+sizeOfFp])
+	if err := z.D1.C2.B0.A0.SetBytesCanonical(e[offset : offset+sizeOfFp]); err != nil {
+		return err
+	}
 	offset += sizeOfFp
-	z.D1.C2.B0.A1.SetBytes(e[offset : offset+sizeOfFp])
+	if err := z.D1.C2.B0.A1.SetBytesCanonical(e[offset : offset+sizeOfFp]); err != nil {
+		return err
+	}
 	offset += sizeOfFp
-	z.D1.C2.B1.A0.SetBytes(e[offset : offset+sizeOfFp])
+	if err := z.D1.C2.B1.A0.SetBytesCanonical(e[offset : offset+sizeOfFp]); err != nil {
+		return err
+	}
 	offset += sizeOfFp
-	z.D1.C2.B1.A1.SetBytes(e[offset : offset+sizeOfFp])
+	if err := z.D1.C2.B1.A1.SetBytesCanonical(e[offset : offset+sizeOfFp]); err != nil {
+		return err
+	}
 
 	return nil
 }
